@@ -174,8 +174,14 @@ func runProxyCase(c *ProxyCase, wrapDepth int) string {
 			gotN, gotErr = append(gotN, int(n)), append(gotErr, err)
 		} else {
 			buf := make([]byte, 8)
-			for range c.Cfg.Script {
-				n, err := pr.Read(buf)
+			for k := range c.Cfg.Script {
+				// "for every chunking": a call that moves nothing is made with an empty buffer in half of the cases (the other
+				// half of each script comes with the other value of Closes); it must reach the wrapped value all the same
+				b := buf
+				if c.Cfg.Script[k].N == 0 && (k+c.Cfg.Closes)%2 == 0 {
+					b = buf[:0]
+				}
+				n, err := pr.Read(b)
 				gotN, gotErr = append(gotN, n), append(gotErr, err)
 				for k := 0; k < n; k++ {
 					if buf[k] != byte('a'+s.i) {
@@ -213,6 +219,9 @@ func runProxyCase(c *ProxyCase, wrapDepth int) string {
 			var sent []byte
 			for k := range c.Cfg.Script {
 				chunk := []byte(strings.Repeat(string(rune('a'+k)), 4))
+				if c.Cfg.Script[k].N == 0 && (k+c.Cfg.Closes)%2 == 0 {
+					chunk = chunk[:0] // an empty write is a call like any other
+				}
 				n, err := pw.Write(chunk)
 				gotN, gotErr = append(gotN, n), append(gotErr, err)
 				if n >= 0 && n <= len(chunk) {
